@@ -197,12 +197,89 @@ let run_unit ops =
   with Exit -> ());
   String.concat " ; " (List.rev !parts)
 
+(* ---- fetcher cases: "F pre=.. pad=.. seed=.. suf=.. | op@i:p,i:p op@ ..." (requests after '@' = delegator oracle,
+   taken by the glue from the implementation's own output of that op) *)
+let md5_bytes (l : n list) : n list =
+  let d = Digest.string (string_of_bytes l) in
+  List.init (String.length d) (fun i -> n_of_int (Char.code d.[i]))
+
+let run_fetch header ops =
+  let kv = List.filter_map (fun t -> match String.index_opt t '=' with
+    | Some k -> Some (String.sub t 0 k, String.sub t (k + 1) (String.length t - k - 1)) | None -> None) (split_ws header) in
+  let get k = List.assoc k kv in
+  let padn = int_of_string (get "pad") and seed = int_of_string (get "seed") in
+  let info = Array.of_list (bytes_of_hex (get "pre") @ List.init padn (fun g -> byte_tab.(content_byte seed g)) @ bytes_of_hex (get "suf")) in
+  let size = Array.length info in
+  let npieces = (size + 16383) / 16384 in
+  let slice p = if p < 0 || p >= npieces then [] else Array.to_list (Array.sub info (p * 16384) (min 16384 (size - p * 16384))) in
+  let g = ref (ginit (md5_bytes (Array.to_list info))) in
+  let fields s =
+    let m = ref None and sz = ref None in
+    List.iter (fun f -> if String.length f >= 2 then begin
+      let v = Some (z_of_string (String.sub f 1 (String.length f - 1))) in
+      match f.[0] with 'm' -> m := v | 's' -> sz := v | _ -> () end) (String.split_on_char ',' s);
+    (!m, !sz) in
+  let parts = ref [] in
+  List.iter (fun tok ->
+    let (op, reqs) = match String.index_opt tok '@' with
+      | Some k -> (String.sub tok 0 k, String.sub tok (k + 1) (String.length tok - k - 1))
+      | None -> (tok, "") in
+    let arg () = if String.length op > 3 then String.sub op 3 (String.length op - 3) else "" in
+    let idx () = n_of_int (Char.code op.[1] - 48) in
+    let gop =
+      if op = "t" then GTick else
+      match op.[0] with
+      | 'c' -> let (m, s) = fields (arg ()) in GConnect (idx (), m, s)
+      | 'h' -> let (m, s) = fields (arg ()) in GHandshake (idx (), m, s)
+      | 'j' -> GReject (idx (), z_of_string (arg ()))
+      | 'd' -> GClose (idx ())
+      | 'p' ->
+          (match String.split_on_char ':' (arg ()) with
+           | pc :: kind :: _ ->
+               let p = (try int_of_string pc with _ -> -1) in
+               let sl = slice p in
+               let starts pre = String.length kind >= String.length pre && String.sub kind 0 (String.length pre) = pre in
+               let data =
+                 if kind = "bad" then (match sl with x :: r -> n_of_int ((int_of_n x) lxor 0x55) :: r | [] -> [])
+                 else if kind = "short" then (match List.rev sl with _ :: r -> List.rev r | [] -> [])
+                 else if kind = "long" then sl @ [n_of_int 90]
+                 else if starts "len" then List.filteri (fun i _ -> i < int_of_string (String.sub kind 3 (String.length kind - 3))) sl
+                 else sl in
+               GData (idx (), z_of_string pc, data)
+           | _ -> failwith "p op")
+      | _ -> failwith "fetch op" in
+    let run o = let (g', outs) = gstep md5_bytes !g o in g := g'; outs in
+    let outs = run gop in
+    let routs = List.concat_map (fun r ->
+      if r = "" then [] else
+      match String.split_on_char ':' r with
+      | [i; p] -> run (GRequest (n_of_string i, n_of_string p))
+      | _ -> failwith "req") (String.split_on_char ',' reqs) in
+    let key o = match o with GQ (i, _, _) -> (int_of_n i, 0) | GInadmissible (i, _) -> (int_of_n i, 0) | GClosed i -> (int_of_n i, 1) in
+    let all = List.stable_sort (fun a b -> compare (key a) (key b)) (outs @ routs) in
+    let ev = String.concat "" (List.map (fun o -> match o with
+      | GQ (i, id, p) -> Printf.sprintf "Q%d(id=%d,piece=%s) " (int_of_n i) (int_of_n id) (string_of_n p)
+      | GInadmissible (i, p) -> Printf.sprintf "INADMISSIBLE%d(%s) " (int_of_n i) (string_of_n p)
+      | GClosed i -> Printf.sprintf "X%d " (int_of_n i)) all) in
+    let s = !g in
+    let sz = match s.g_size with Some n -> string_of_n n | None -> "1" in
+    let (dn, file) = match s.g_done with Some d -> ("1", pay_str d) | None -> ("0", "-") in
+    let conns = String.concat "" (List.map (fun q -> Printf.sprintf " C%d[idm=%d rs=%d]" (int_of_n q.p_idx) (int_of_n q.p_idm) (b01 q.p_rs))
+      (List.sort (fun a b -> compare (int_of_n a.p_idx) (int_of_n b.p_idx)) s.g_peers)) in
+    parts := (Printf.sprintf "%s => %s# F[size=%s chunk=%s done=%s have=%s file=%s]%s" op ev sz sz dn dn file conns) :: !parts) ops;
+  (match !g.g_done with Some _ -> parts := "same=1" :: !parts | None -> ());
+  String.concat " ; " (List.rev !parts)
+
 let () = each_line (fun line ->
   match split_ws line with
   | ["SLICE"; h; p] ->
       let m = bytes_of_hex h in
       show_reply (send_metadata_piece false m (n_of_string p)) ^ " | " ^ show_reply (send_metadata_piece_old false m (n_of_string p))
   | "U" :: "|" :: ops -> run_unit ops
+  | "F" :: _ ->
+    (match String.index_opt line '|' with
+     | None -> "BADCASE"
+     | Some k -> run_fetch (String.sub line 2 (k - 2)) (split_ws (String.sub line (k + 1) (String.length line - k - 1))))
   | _ ->
     (match String.index_opt line '|' with
      | None -> "BADCASE"
